@@ -339,9 +339,15 @@ fn hint_case(prog: &[GOp], substs: &[Subst], ctx: &mut Ctx) -> Result<(), Failur
             let mut m = Machine::new(Run::Adversarial, false);
             let mut scratch = ctx.scratch();
             for op in prog {
-                match m.step(op, &mut scratch)? {
-                    StepOut::NativeFails(_) => break,
-                    _ => {}
+                match m.step(op, &mut scratch) {
+                    Ok(StepOut::NativeFails(_)) => break,
+                    Ok(_) => {}
+                    Err(f) if f.signature.ends_with("synthesis-error") && m.consuming_poison() => {
+                        // no witness can be computed from an undecodable encoding: the prover is stuck
+                        m.expect_unsat = Some("a gadget consumed an undecodable lazy variable and witness generation failed".into());
+                        return Ok((false, Some("the native operation rejects the input (undecodable lazy variable)".to_string())));
+                    }
+                    Err(f) => return Err(f),
                 }
             }
             let mut wrong = force_values(&m);
